@@ -739,9 +739,8 @@ fn run(a: &Args) -> i32 {
         }
         let mode = match (k, a.tier) {
             (1, _) => AttrMode::All,
-            (2, Tier::Quick) => AttrMode::SingleAndPairs,
-            (2, Tier::Thorough) => AttrMode::All,
-            _ => AttrMode::Single,
+            (2, _) => AttrMode::All,
+            _ => AttrMode::SingleAndPairs,
         };
         // ordered k-tuples of distinct labels (k = 3: labels over the 12-source sub-menu)
         let usable: Vec<usize> = (0..l)
@@ -878,7 +877,7 @@ fn run(a: &Args) -> i32 {
             "labels_for_three_dependency_nodes": format!("names {:?} x sources {:?}", NAMES, SOURCES_K3),
             "shapes": "every DAG on nodes 0..k with edges i->j (i<j) in which every node has an in-edge; labels are assigned as ordered tuples, so every labelled rooted DAG occurs",
             "edge_attributes": "dep name in {package name, alias<j>, name of another package} x kind in {library, contract salt 0, contract salt 00..01, contract salt ff..ff}",
-            "attribute_variation": match a.tier { Tier::Quick => "k=1: all; k=2: base + every single edge + every pair of edges", Tier::Thorough => "k=1,2: every assignment; k=3: base + every single edge" },
+            "attribute_variation": match a.tier { Tier::Quick => "k=1,2: every assignment", Tier::Thorough => "k=1,2: every assignment; k=3: base + every single edge + every pair of edges" },
             "base_assignment": "every edge (package name, library), except that a second out-edge of one node to a same-named package is (alias, library)",
             "adversarial_names": format!("root name in {:?} x single dependency named {:?} x every source x every attribute", ROOT_NAMES, ADVERSARIAL),
         }),
